@@ -133,3 +133,60 @@ func runSetOps(ctx context.Context, v *Variants, rec *Recorder, run *Run, r *ran
 		run.Nontrivial(fmt.Sprintf("setops %s %s", what, hashOf([]any{cs.Model, cs.Tuples})))
 	}
 }
+
+// naryCase: intersections / unions of three and four operands with operand sizes that differ (the
+// engines start from the smallest operand), nested once more under a union and an exclusion.
+func naryCase(r *rand.Rand, n int) *Case {
+	m := &Model{Types: []string{"user", "group", "folder", "doc"}, Conds: []CondDef{}}
+	base := []string{"a", "b", "c", "d"}
+	for _, b := range base {
+		m.Rels = append(m.Rels, RelDef{T: "doc", R: b, Rw: &Rewrite{K: "this"}, Restr: []Restr{{T: "user"}}})
+	}
+	comp := func(n string) *Rewrite { return &Rewrite{K: "computed", Rel: n} }
+	perm := r.Perm(4)
+	ops := func(k int) []*Rewrite {
+		var out []*Rewrite
+		for i := 0; i < k; i++ {
+			out = append(out, comp(base[perm[i]]))
+		}
+		return out
+	}
+	m.Rels = append(m.Rels,
+		RelDef{T: "doc", R: "i3", Rw: &Rewrite{K: "inter", Ch: ops(3)}, Restr: []Restr{}},
+		RelDef{T: "doc", R: "i4", Rw: &Rewrite{K: "inter", Ch: ops(4)}, Restr: []Restr{}},
+		RelDef{T: "doc", R: "u3", Rw: &Rewrite{K: "union", Ch: ops(3)}, Restr: []Restr{}},
+		RelDef{T: "doc", R: "viewer", Rw: &Rewrite{K: "union", Ch: []*Rewrite{comp("i3"), comp(base[perm[3]])}}, Restr: []Restr{}},
+		RelDef{T: "doc", R: "editor", Rw: &Rewrite{K: "diff", Base: comp("u3"), Sub: comp("i3")}, Restr: []Restr{}})
+	cs := &Case{N: n, Model: m}
+	for _, b := range base {
+		p := 0.2 + 0.6*r.Float64() // each operand its own density: the sizes differ
+		for id := 1; id <= 7; id++ {
+			if r.Float64() < p {
+				cs.Tuples = append(cs.Tuples, Tuple{O: Obj{"doc", fmt.Sprint(id)}, R: b, U: Subj{"user", "a", ""}, Cctx: Ctx{}})
+			}
+		}
+	}
+	return cs
+}
+
+// runNary: ListObjects over n-ary set operations on the given engines.
+func runNary(ctx context.Context, v *Variants, rec *Recorder, run *Run, r *rand.Rand, cases int, engines []string) {
+	for i := 0; i < cases; i++ {
+		cs := naryCase(r, -9000-i)
+		if err := v.Base.Setup(ctx, cs.Model, cs.Tuples); err != nil {
+			continue
+		}
+		rec.Setup(cs.SetupEv())
+		for _, rel := range []string{"i3", "i4", "u3", "viewer", "editor"} {
+			for _, eng := range engines {
+				ev := &ListObjectsEv{Eng: eng, T: "doc", R: rel, U: Subj{"user", "a", ""}, Ctx: Ctx{}}
+				if !v.RunLO(ctx, ev) {
+					continue
+				}
+				rec.Add(ev)
+				run.Evals++
+			}
+		}
+		run.Nontrivial(fmt.Sprintf("nary %s", hashOf([]any{cs.Model, cs.Tuples})))
+	}
+}
